@@ -25,8 +25,9 @@ from automata.fa.nfa import NFA
 from harness import gen
 from harness import names_xtype as X
 from harness import nfa_mutable as M
+from harness import nfa_ops_deep as D6
 from harness import nfaops_lib as L
-from harness.common import Ctx, Names, call, nfa_iso
+from harness.common import Ctx, InfraError, Names, call, nfa_iso
 
 LEVEL = "proof"
 RULE = ("cases = (operation, valid NFA operand(s)); corpus of past defects (F6, F12), bounded-exhaustive small "
@@ -41,7 +42,14 @@ RULE = ("cases = (operation, valid NFA operand(s)); corpus of past defects (F6, 
         "shared rows) / copied containers, SEQUENCES of 3–8 operations and reads on the same objects incl. earlier "
         "results, operands that use few target sets in many places under the quotients, every result judged against the "
         "definitions AS BUILT) and random expression "
-        "trees of depth ≤3 whose intermediate real results are fed back as operands; a case is non-trivial when "
+        "trees of depth ≤3 whose intermediate real results are fed back as operands; round 6 (deep / large instances): 50 "
+        "templates per run — all nine operations and | + & at least once, and results fed into further operations — on "
+        "operands with 1100–3000 states where the real code is linear (chains of one long word with int / string / offset "
+        "names, all states final, ε-chains of 150–250 moves, rings, from_finite_language of one long word, 1100–1500 distinct "
+        "symbols, fans with a target set of 1100–1600 states, the same object on both sides, a fold of 30 concatenations) and "
+        "a few hundred where construction or reading is inherently quadratic (coprime rings, shuffle / quotients of two chains, "
+        "quotients by Σ*), sizes drawn per run, judged on threshold words around the key words by a closed form from the "
+        "construction parameters (each template also at a scaled-down size through the ordinary oracles); a case is non-trivial when "
         "every operand has ≥2 states and the result language is neither empty nor universal up to the word "
         "bound; distinct = distinct (operation, operand definitions)")
 ASSUMPTIONS = [
@@ -53,6 +61,10 @@ ASSUMPTIONS = [
     "stores; the property is read as 'the result has the textbook language of the definitions the operands were built "
     "with, whatever was called on the objects before' — judged against frozen twins; the model is asked only while the "
     "live operands still have those definitions (stat mutable_option_definition_changed otherwise)",
+    "deep family (round 6): time is not part of the property — instances whose construction or whose reading is inherently "
+    "quadratic on the unchanged library (shuffle / quotients of two ≥1100-state operands, ε-chains > 250, quotients by Σ* and "
+    "star of a unary all-final chain above 400 states) are scaled down to a few hundred states (stats deep:excluded:*); a case "
+    "that does not answer within 20 s (clean: < 0.4 s) is reported as a failure",
     "names equal across types (round 4): 0, 0.0, False, Fraction(0), Decimal(0), 0j are one key of a Python set; the "
     "wire format sends every such name as the natural number it equals (nfaops_lib.nat_of), which is how the model's "
     "first-unused-natural search sees it",
@@ -60,7 +72,11 @@ ASSUMPTIONS = [
 EXPLANATION = ("Theorems C08_* state, for every pair of valid NFAs, that the model of each operation returns a "
                "valid NFA (no error branch) with the textbook language; this run ties the model to the code by "
                "exact differential comparison of the constructed automata and evaluates the property itself on "
-               "the real results with independent oracles.")
+               "the real results with independent oracles.  For operands far beyond the sizes the model's driver and the "
+               "brute-force oracles can handle (1100–3000 states: deep family) the property — no exception, validate(), "
+               "alphabet, language on threshold words — is evaluated with closed-form answers derived from the construction "
+               "parameters (stat deep:judged_by_closed_form(no_model_round_trip)); size thresholds in the code (recursion depth, "
+               "fixed-size caches / probes / buffers) are therefore observed although the model has none.")
 
 UNARY = ["kleene_star", "option", "reverse"]
 BINARY = ["union", "concatenate", "intersection", "shuffle_product", "right_quotient", "left_quotient"]
@@ -586,6 +602,219 @@ def cross_type_names_family(ctx: Ctx, n: int):
                 check_op(ctx, op, B, A, "cross_type_names")
 
 
+
+# ------------------------------------------------------------------ round 6: deep / large instances
+# Operands with 1100–3000 states (a few hundred where the construction is a product), described by a small spec
+# (harness/nfa_ops_deep.py) from which the real operands are built with the library's constructor and the language
+# of the result is known in CLOSED FORM from the construction parameters — no model round trip, no brute force.
+def deep_templates(rng, small: bool):
+    """[(label, case)] — case = {"expr": tree, "probes": [rle, …]} (see harness/nfa_ops_deep.py).  The same code
+    produces the deep instances and their scaled-down twins.  Sizes (measured on the unchanged library):
+      u   1100–3000 symbols  — the primary template of every operation (construction and reading are linear);
+      s, v  1100–1400        — the secondary templates (other names, same object on both sides, ε-chains, compositions);
+      t   1100–1500 DISTINCT symbols (an alphabet of that size) — operands whose states are all final: with a
+          periodic word the reader of the result keeps Θ(n) current states (quadratic), with distinct symbols one;
+      m   200–300            — where the RESULT is inherently quadratic to read: quotients by Σ* (the synchronised
+          phase is an ε-chain as long as the operand), star of a unary all-final chain;
+      ε-chains 150–250       — the reader's ε-closures are quadratic in them;
+      products: rings of 16–22 states, chains of 16–22 symbols (results of 300–2800 states)."""
+    def n_(lo, hi):
+        return rng.randint(1, 2) if small else rng.randint(lo, hi)
+    h1, g1, h2, m1 = n_(1100, 3000) // 2 or 1, n_(1100, 1400) // 2 or 1, n_(1100, 1400) // 3 or 1, n_(200, 300) // 2 or 1
+    u, s, v, um = [["ab", h1], ["b", 1]], [["ab", g1], ["b", 1]], [["bba", h2]], [["ab", m1], ["b", 1]]
+    ur, sr, vr = [["b", 1], ["ba", h1]], [["b", 1], ["ba", g1]], [["abb", h2]]          # mirror images (none is a palindrome)
+    nt = 3 if small else rng.randint(1100, 1500)
+    t, tr_ = [["@distinct", nt]], [["@distinct", -nt]]
+    th, thr = [["@distinct", nt // 2]], [["@distinct", -(nt // 2)]]
+    e1 = 2 if small else rng.randint(150, 250)
+    p_, q_ = (2, 3) if small else rng.choice([(16, 17), (19, 20), (21, 22), (17, 19)])
+    k = 2 if small else rng.randint(16, 22)
+    N = 3 if small else rng.randint(1100, 1600)
+
+    def W(w, **kw):
+        return dict(kind="word", w=w, **kw)
+    Ss, Sb1 = W(s, names="str"), W(s, base=1)
+    Se = W(s, eps=[[0, e1], [g1, e1], [2 * g1 + 1, 2]])
+    Ve = W(v, eps=[[1, e1]], names="str")
+    Tall = W(t, finals="all")
+    ab = ["a", "b"]
+    sig = dict(kind="sigma_star", syms=ab)
+    out = []
+
+    def add(label, expr, probes):
+        out.append((label, dict(expr=expr, probes=probes)))
+    # ---- union / |
+    add("union", ["union", W(u), W(v)], [u, v, []])
+    add("or:eps_chains+str_names", ["or", Se, Ve], [s, v])
+    add("union:same_object", ["union", Ss, "same"], [s])
+    # ---- concatenate / +
+    add("concatenate", ["concatenate", W(u), W(v)], [u + v, u, v + u])
+    add("add:all_final", ["add", Tall, W(v, names="str")], [t + v, th + v, v, t])
+    add("concatenate:same_object", ["concatenate", Sb1, "same"], [s + s, s, s + s + s])
+    add("concatenate:finlang", ["concatenate", dict(kind="finlang", w=s, syms=ab), Ve], [s + v, s])
+    fold, parts = W([["ab", k // 2], ["a", 1]]), []
+    for i in range(3 if small else 30):                       # 30 results fed into the next concatenation (≈ 1200 states)
+        piece = [["ab" if i % 2 else "ba", k], ["b" if i % 3 else "a", 1]]
+        fold = ["add", fold, W(piece, names="str" if i % 2 else "int")]
+        parts += piece
+    add("add:fold_of_30", fold, [[["ab", k // 2], ["a", 1]] + parts, parts])
+    # ---- kleene_star
+    add("kleene_star", ["kleene_star", W(u)], [u, u + u, u + u + u, []])
+    add("kleene_star:str_names+eps", ["kleene_star", Ve], [v + v, v])
+    add("kleene_star:all_final_unary", ["kleene_star", W([["a", m1]], finals="all")], [[["a", 2 * m1 + 1]], [["a", m1], ["b", 1]], []])
+    add("kleene_star:all_final", ["kleene_star", W(t, finals=[nt // 2, nt])], [t + th + t, th + th, t])
+    add("kleene_star:ring", ["kleene_star", dict(kind="cycle", w=s)], [s + s, s, []])
+    add("kleene_star:fan", ["kleene_star", dict(kind="fan", n=N)], [[["ab", 3]], [["ab", 1]], []])
+    # ---- option
+    add("option", ["option", W(u)], [u, []])
+    add("option:base1+all_final", ["option", W(t, base=1, finals="all")], [t, th, []])
+    add("option:finlang", ["option", dict(kind="finlang", w=v, syms=ab)], [v, []])
+    # ---- reverse
+    add("reverse", ["reverse", W(u)], [ur, u])
+    add("reverse:all_final", ["reverse", Tall], [tr_, thr, t, []])
+    add("reverse:eps_chains", ["reverse", Se], [sr, s])
+    add("reverse:fan_eps", ["reverse", dict(kind="fan", n=N, eps=True)], [[["b", 1]], [["ab", 1]]])
+    add("reverse:ring", ["reverse", dict(kind="cycle", w=s)], [sr + sr, sr, s])
+    # ---- intersection / & (work-list over the reachable pairs: linear for two chains)
+    add("intersection:same_word", ["intersection", W(u), W(u, names="str")], [u])
+    add("intersection:different_words", ["intersection", W(s), W(v)], [s, v, []])
+    add("and:word_with_ring", ["and", W([["ab", h1]]), dict(kind="cycle", w=[["ab", 1]])], [[["ab", h1]], [["ab", h1 - 1]]])
+    add("intersection:same_object", ["intersection", Sb1, "same"], [s])
+    add("and:fan_with_word", ["and", dict(kind="fan", n=N), W([["ab", 1]], names="str")], [[["ab", 1]], [["b", 1]]])
+    add("intersection:large_alphabet", ["intersection", Tall, W(t, finals=[nt // 2], names="str")], [th, t])
+    add("intersection:eps_chains(product)", ["intersection", W(s, eps=[[0, k], [g1, k]]), W(s, eps=[[1, k]], names="str")], [s])
+    add("intersection:coprime_rings(product)", ["intersection", dict(kind="cycle", w=[["a", p_]]), dict(kind="cycle", w=[["a", q_]])],
+        [[["a", p_ * q_]], [["a", 2 * p_ * q_]], [["a", p_]], [["a", q_]], []])
+    # ---- shuffle_product (all pairs of states)
+    add("shuffle_product:long_with_one_symbol", ["shuffle_product", W([["ab", g1 // 2], ["b", 1]]), W([["c", 1]])],
+        [[["c", 1], ["ab", g1 // 2], ["b", 1]], [["ab", g1 // 4], ["c", 1], ["ab", g1 // 2 - g1 // 4], ["b", 1]],
+         [["ab", g1 // 2], ["b", 1], ["c", 1]], [["ab", g1 // 2], ["b", 1]], [["ab", g1 // 2], ["c", 2], ["b", 1]]])
+    add("shuffle_product:product", ["shuffle_product", W([["ab", k // 2], ["b", 1]], finals="all"), W([["c", k]])],
+        [[["c", k], ["ab", k // 2], ["b", 1]], [["abc", k // 2], ["c", k - k // 2]], [["ca", 1], ["c", k - 1]], [["c", k - 1]]])
+    # ---- right_quotient (|A|·|B| states; ε-elimination of both operands first)
+    x2 = [["ba", 1]]
+    add("right_quotient:short_divisor", ["right_quotient", W(s + x2), W(x2)], [s, s + x2, []])
+    add("right_quotient:by_sigma_star", ["right_quotient", W(um), sig], [um, [["ab", m1 // 2]], []])
+    add("right_quotient:fan", ["right_quotient", dict(kind="fan", n=N), W([["b", 1]])], [[["a", 1]], [["ab", 1]], []])
+    add("right_quotient:by_empty", ["right_quotient", W(s), dict(kind="empty", syms=ab)], [s, []])
+    add("right_quotient:eps_chain", ["right_quotient", W(v + x2, eps=[[3, e1]]), W(x2, finals="all", names="str")],
+        [v, v + x2, v + [["b", 1]]])
+    y = [["ab", k // 2], ["b", 1]]
+    z = [["bba", k // 3 + 1]]
+    add("right_quotient:product", ["right_quotient", W(y + z + y), W(z + y, finals=[len(D6.word(y)), len(D6.word(z + y))])],
+        [y, y + z, y + z + y])
+    # ---- left_quotient
+    add("left_quotient:short_divisor", ["left_quotient", W(x2 + s), W(x2)], [s, x2 + s, []])
+    add("left_quotient:by_sigma_star", ["left_quotient", W(um), sig], [um, [["ab", m1 // 2], ["b", 1]], [["ba", 1]], []])
+    add("left_quotient:fan_eps", ["left_quotient", ["concatenate", dict(kind="fan", n=N, eps=True), W([["ab", 2]])], dict(kind="fan", n=N, eps=True)],
+        [[["ab", 2]], [["b", 1], ["ab", 2]], []])
+    add("left_quotient:all_final_by_eps_only", ["left_quotient", W(s, finals="all"), dict(kind="eps_only", syms=ab)], [s, [["ab", g1 // 2]], []])
+    add("left_quotient:eps_chain", ["left_quotient", W(x2 + v, eps=[[2, e1]], names="str"), W(x2)], [v, x2 + v, [["a", 1]] + v])
+    add("left_quotient:product", ["left_quotient", W(y + z + y), W(y + z, finals=[len(D6.word(y)), len(D6.word(y + z))])],
+        [y, z + y, y + z + y])
+    # ---- results fed into further operations
+    add("reverse(concatenate)", ["reverse", ["concatenate", W(s), W(v)]], [vr + sr, s + v])
+    add("kleene_star(union)", ["kleene_star", ["union", W(s), W(v, names="str")]], [s + v + s, v + v, [["ab", g1]]])
+    add("reverse(reverse)", ["reverse", ["reverse", Sb1]], [s, sr])
+    add("option(intersection)", ["option", ["intersection", W(s), Ss]], [s, []])
+    add("left_quotient(add)", ["left_quotient", ["add", W(x2), W(s)], W(x2)], [s, x2 + s])
+    add("right_quotient(kleene_star)", ["right_quotient", ["kleene_star", W([["ab", m1 // 2], ["b", 1]])], sig],
+        [[["ab", m1 // 2], ["b", 1], ["ab", m1 // 4]], [["ab", m1 // 2], ["b", 1], ["ab", m1 // 2], ["b", 1]], [["ab", m1 // 2], ["b", 1], ["a", 2]]])
+    return out
+
+
+def check_deep_case(ctx: Ctx, label: str, case: dict, small: bool):
+    ops = list(D6.ops_of(case["expr"]))
+    if small:
+        # scaled-down twin: every application judged by the ordinary oracles (model correspondence, brute force through
+        # the real reader, textbook construction); then the closed form against the endorsed real result on short words
+        n0 = ctx.n_prop_fails
+
+        def ev(t):
+            if isinstance(t, dict):
+                return D6.build(t)
+            X_ = ev(t[1])
+            Y_ = (X_ if t[2] == "same" else ev(t[2])) if len(t) > 2 else None
+            return None if X_ is None or (len(t) > 2 and Y_ is None) else check_op(ctx, t[0], X_, Y_, "deep_twin")
+        R = ev(case["expr"])
+        if R is None or ctx.n_prop_fails > n0:
+            return
+        lang = D6.lang_of(case["expr"])
+        sigma = sorted(R.input_symbols)
+        ws = set(L.words_upto(sigma, L.bound_for(sigma, 300))) | set(D6.probe_words(case))
+        for w in ws:
+            ctx.stat("deep_twin:closed_form_compared_with_real_result_endorsed_by_the_oracles")
+            if R.accepts_input(w) != lang.member(w):
+                ctx.stat("deep_twin:closed_form_differs")
+                ctx.corr_diff("DEEP oracle", dict(template=label, expr=D6.show_expr(case["expr"]), word=w),
+                              R.accepts_input(w), lang.member(w))
+                return
+        return
+    bad, info = D6.run_case(case)
+    ctx.case(("deep", label, json.dumps(case["expr"], sort_keys=True)))
+    ctx.stat("deep:judged_by_closed_form(no_model_round_trip)")
+    ctx.stat("deep:template:" + label)
+    for o in set(ops):
+        ctx.stat("deep:op_" + o)
+    if len(ops) > 1:
+        ctx.stat("deep:result_fed_into_further_operation")
+    for ns in info["operand_states"]:
+        ctx.stat("deep:operand_states:" + ("<10" if ns < 10 else "10-99" if ns < 100 else "100-1099" if ns < 1100 else
+                                           "1100-1999" if ns < 2000 else "2000-2999" if ns < 3000 else "≥3000"))
+    for ns in info["result_states"][-1:]:
+        ctx.stat("deep:result_states:" + ("<300" if ns < 300 else "300-1099" if ns < 1100 else "1100-2999" if ns < 3000 else
+                                          "3000-5999" if ns < 6000 else "≥6000"))
+    ctx.stat("deep:probe_words", info["probes"])
+    ctx.stat("deep:probe_words_in_the_language", info["accepted"])
+    ctx.stat("deep:probe_words_not_in_the_language", info["rejected"])
+    ctx.stat("deep:deepest_probe_word:" + ("≥3000" if info["deepest"] >= 3000 else "1100-2999" if info["deepest"] >= 1100 else "<1100"))
+    if ctx.stats.get("deep:judged_by_closed_form(no_model_round_trip)", 0) % 12 == 1:
+        ctx.sample(dict(deep=D6.show_expr(case["expr"])[:600], probes=[D6.show_rle(r) for r in case["probes"]], verdict=bad or "ok",
+                        result_states=info["result_states"][-1:]))
+    if bad is None:
+        return
+    again, _ = D6.run_case(case)          # re-confirm on operands built afresh
+    if again is None:
+        ctx.stat("deep:failure_not_reproduced")
+        ctx.corr_diff("DEEP not reproduced", dict(template=label, expr=D6.show_expr(case["expr"])), bad, "ok on a rebuilt object")
+        return
+    what = f"deep instance [{label}] {D6.show_expr(case['expr'])[:900]}: {again}"
+    ctx.prop_fail(what, dict(op="deep", deep=case, template=label, what=what), None)
+
+
+def deep_family(ctx: Ctx):
+    import os
+    import sys
+    import time
+    rng = ctx.rng
+    t0 = time.time()
+    import gc
+    gc.freeze()          # the ~15 000 earlier cases stay out of the collector's way while 10 000-state results are built
+    try:
+        _deep_family(ctx, rng, t0)
+    finally:
+        gc.unfreeze()
+
+
+def _deep_family(ctx: Ctx, rng, t0):
+    import os
+    import sys
+    import time
+    try:
+        ctx.stat("deep:closed_form_selftest_comparisons", D6.selftest())
+    except AssertionError as e:
+        raise InfraError(f"deep family: closed form wrong on a small instance: {e}")
+    for small in (True,) + (False,) * ctx.budget(1, 4):       # thorough: four draws of the sizes
+        for label, case in deep_templates(rng, small):
+            check_deep_case(ctx, label, case, small)
+        if os.environ.get("VERIF_DEEP_TIMING"):
+            print(f"deep family C08: {'twins' if small else 'deep instances'} done at {time.time() - t0:.2f} s", file=sys.stderr)
+    # named exclusions (measured on the unchanged tree; in-domain, but outside the time budget of a quick run)
+    ctx.stat("deep:excluded:shuffle_product_and_quotients_of_TWO_operands_with_≥1100_states(result_has_≥10^6_states)")
+    ctx.stat("deep:excluded:ε-chains_longer_than_250_and_intersection_of_two_long_ε-chains(quadratic_closures/quadratically_many_pairs)")
+    ctx.stat("deep:excluded:quotient_by_Σ*_and_star_of_a_unary_all-final_chain_above_400_states(result_inherently_quadratic_to_read)")
+
+
 def run(ctx: Ctx):
     rng = ctx.rng
     thorough = ctx.thorough()
@@ -657,6 +886,8 @@ def run(ctx: Ctx):
     cross_type_names_family(ctx, ctx.budget(90, 600))
     # 4. round 4: the mutable-automata option — sequences of operations on the same live objects
     mutable_option_family(ctx, ctx.budget(120, 600))
+    # 5. round 6: deep / large instances (closed-form oracle)
+    deep_family(ctx)
     report_budget(ctx)
 
 
@@ -694,7 +925,9 @@ def replay(ctx: Ctx, path: str) -> int:
     data = json.load(open(path))
     rp = data.get("replay", data)
     env = dict({"NFA": NFA, "frozenset": frozenset, "frozendict": dict}, **X.EVAL_ENV)
-    if rp.get("op") == "mutable_sequence":
+    if rp.get("op") == "deep":
+        check_deep_case(ctx, rp.get("template", "replay"), rp["deep"], False)
+    elif rp.get("op") == "mutable_sequence":
         run_mutable_sequence(ctx, [eval(x, env) for x in rp["objs"]], rp["mode"], rp["steps"], "replay")
     else:
         A = eval(rp["A"], env)
